@@ -21,6 +21,34 @@ def fq(name, ops, ia=60, ib=60, witness=False, sametick=0):
 NEVER = 4294967295
 
 
+def mfq(name, gens, exists=None, witness=False):
+    """libmy/my_fileset.c itself: concrete line lists per generation (indices 0..2 = "a", "b", "/d/c"; repeats allowed)."""
+    ng = len(gens)
+    exists = exists or [7] * ng
+    rows = ",".join("{" + ",".join(str(x) for x in (list(g) + [-1] * 4)[:4]) + "}" for g in gens)
+    d = {"NG": ng, "GENS": "{" + rows + "}", "EXISTS": "{" + ",".join(str(x) for x in exists) + "}"}
+    return Query(name, harness="c07_myfileset.c", entry="h_myfileset", defines=d, units=[], unwind=14, object_bits=10, timeout=600, mem_gb=8,
+                 leak_check=True, witness=witness,
+                 sample={"setfile_lines_per_generation": gens, "legend": "0 = a, 1 = b (relative), 2 = /d/c (absolute); repeats allowed",
+                         "files_existing_per_generation(bitmask)": exists, "symbolic": "whether each generation's setfile differs from the previous one in inode or in mtime or not at all"})
+
+
+def myfileset_queries(quick):
+    tabs = [
+        ("ab_bc", [[0, 1], [1, 2]], None), ("abc_none", [[0, 1, 2], []], None), ("none_a", [[], [0]], None), ("cab_b", [[2, 0, 1], [1]], None),
+        ("ab_ab_missing_then_there", [[0, 1], [0, 1]], [5, 7]), ("abc_abc_vanishes", [[0, 1, 2], [0, 1, 2]], [7, 3]),
+        ("a_ab_b", [[0], [0, 1], [1]], None), ("ba_c_ab", [[1, 0], [2], [0, 1]], None),
+        # a file named more than once (F12)
+        ("aa_aab", [[0, 0], [0, 0, 1]], None), ("aa_a", [[0, 0], [0]], None), ("bab_bb", [[1, 0, 1], [1, 1]], None), ("a_aa", [[0], [0, 0]], None),
+        ("aa_aa_a", [[0, 0], [0, 0], [0]], None), ("cc_cbc", [[2, 2], [2, 1, 2]], None),
+    ]
+    if not quick:
+        tabs += [("abc_cba_b", [[0, 1, 2], [2, 1, 0], [1]], None), ("a_b_c", [[0], [1], [2]], None), ("aab_abb_ab", [[0, 0, 1], [0, 1, 1], [0, 1]], None),
+                 ("aaa_aaa", [[0, 0, 0], [0, 0, 0]], None), ("ab_ba_gone", [[0, 1], [1, 0], [0, 1]], [7, 7, 0]), ("aabb_ab", [[0, 0, 1, 1], [0, 1]], None),
+                 ("abca_ca", [[0, 1, 2, 0], [2, 0]], [7, 6])]
+    return [mfq("myfileset_" + t, g, e, witness=(t == "ab_bc")) for t, g, e in tabs]
+
+
 def build(tier, seed):
     quick = tier == "quick"
     hist = [
@@ -38,12 +66,14 @@ def build(tier, seed):
     for i, h in enumerate(hist):
         for ia, ib in (((60, 60), (0, NEVER)) if quick else ((60, 60), (0, 0), (0, NEVER), (NEVER, 60), (NEVER, NEVER))):
             qs.append(fq("hist_%s_i%s_%s" % (h, "N" if ia == NEVER else ia, "N" if ib == NEVER else ib), h, ia, ib, witness=(i in (0, 6) and ia == 60)))
+    qs += myfileset_queries(quick)
     meta = {
-        "functions": FUNCS, "units": ["mtbl/fileset.c", "libmy/my_time.h"],
+        "functions": FUNCS + ["my_fileset_init", "my_fileset_reload", "my_fileset_get", "my_fileset_destroy", "setfile_updated", "fetch_entry", "cmp_fileset_entry", "path_exists"],
+        "units": ["mtbl/fileset.c", "libmy/my_time.h", "libmy/my_fileset.c"],
         "bounds": "histories of <= 14 operations over {open/close iterator on either of two handles, reload, reload_now, setfile change, time passes, dup with another filename filter and interval, destroy in either order}; every clock reading (incl. equal successive readings, as CLOCK_MONOTONIC allows) and every setfile generation (any subset of three names) is a solver variable; reload intervals 0, 60, NEVER per handle",
-        "outside": "libmy/my_fileset.c itself (stat/fopen/getline/qsort/bsearch of the real setfile) is modelled by its contract; more than two handles / three names; iterator kinds other than plain iteration share the same code path (fileset_source_get* call the same reload + init)",
-        "stubs": STUBS,
-        "assumptions": ["my_fileset_reload loads/unloads exactly the difference between the old and new setfile and does nothing when the setfile is unchanged"],
+        "outside": "fileset.c and libmy/my_fileset.c are decided in separate queries that meet at my_fileset's contract (fileset.c against the contract model; the real my_fileset.c against enumerated setfile generations: <= 3 generations of <= 4 lines over three names incl. repeated names, relative/absolute spelling, files missing/appearing; change of inode or mtime or none is the solver variable); setfile lines with other spellings of one file (./a vs a), longer setfiles; more than two handles / three names; iterator kinds other than plain iteration share the same code path (fileset_source_get* call the same reload + init)",
+        "stubs": STUBS + ["my_fileset.c queries: stat (setfile inode/mtime per generation, existence per name), fopen/getline/fclose (the generation's lines), dirname fixed, qsort = insertion sort, bsearch = first matching element, load callback hands out a fresh object per call and unload records destruction"],
+        "assumptions": ["fileset.c queries: my_fileset_reload loads/unloads exactly the difference between the old and new setfile and does nothing when the setfile is unchanged -- what the my_fileset.c queries decide for the enumerated generations"],
         "exhaustive": False,
     }
     return qs, meta
